@@ -136,9 +136,11 @@ pub fn make_writer(pid: i32, o: &DumpOpts) -> MinidumpWriter {
     if let Some((phnum, phdr, gate, entry)) = o.direct_auxv {
         w.set_direct_auxv_dump_info(DirectAuxvDumpInfo { program_header_count: phnum, program_header_address: phdr, linux_gate_address: gate, entry_address: entry });
     }
-    if let Some(ms) = o.stop_timeout_ms {
-        w.stop_timeout(Duration::from_millis(ms));
-    }
+    // The writer polls for the target to stop and gives up after a timeout (default 100 ms), which
+    // then shows up as a soft error. Whether a loaded machine makes that deadline is not something
+    // the checks should depend on: unless a check sets the timeout itself, allow 30 s (the poll
+    // returns as soon as the target is seen stopped, so this costs nothing).
+    w.stop_timeout(Duration::from_millis(o.stop_timeout_ms.unwrap_or(30_000)));
     w
 }
 
